@@ -127,7 +127,39 @@ func inInt64(t string) string {
 	return "(and (<= (- " + two63 + ") " + t + ") (<= " + t + " 9223372036854775807))"
 }
 
+// strLenArg returns T if t is "(str.len T)".
+func strLenArg(t string) (string, bool) {
+	if strings.HasPrefix(t, "(str.len ") && matchParen(t, 0) == len(t)-1 {
+		return t[len("(str.len ") : len(t)-1], true
+	}
+	return "", false
+}
+
 func intCmp(op token.Token, a, b IntV) BoolV {
+	// len(s) compared with 0 or 1 is string emptiness: one canonical form, so that code using
+	// len(s) > 0 and code using s != "" produce the same term
+	if arg, ok := strLenArg(a.T); ok && b.C && (b.N == 0 || b.N == 1) {
+		empty := tEq(arg, `""`)
+		switch {
+		case b.N == 0 && op == token.GTR, b.N == 0 && op == token.NEQ, b.N == 1 && op == token.GEQ:
+			return BoolV{tNot(empty)}
+		case b.N == 0 && op == token.EQL, b.N == 0 && op == token.LEQ, b.N == 1 && op == token.LSS:
+			return BoolV{empty}
+		case b.N == 0 && op == token.GEQ:
+			return BoolV{"true"}
+		case b.N == 0 && op == token.LSS:
+			return BoolV{"false"}
+		}
+	}
+	if arg, ok := strLenArg(b.T); ok && a.C && a.N == 0 {
+		empty := tEq(arg, `""`)
+		switch op {
+		case token.LSS, token.NEQ:
+			return BoolV{tNot(empty)}
+		case token.EQL, token.GEQ:
+			return BoolV{empty}
+		}
+	}
 	if a.C && b.C {
 		switch op {
 		case token.EQL:
